@@ -115,6 +115,15 @@ func asymmetryWitness(c *Ctx, info *types.Info, body ast.Node, a, b types.Object
 		case token.SUB, token.QUO, token.REM, token.SHL, token.SHR, token.LSS, token.LEQ, token.GTR, token.GEQ, token.AND_NOT:
 			w = fmt.Sprintf("the Go operator %s is applied between the two operands (%s)", be.Op, nodeStr(c.Fset, be))
 			pos = be.Pos()
+		case token.EQL, token.NEQ:
+			// a comparison of non boolean operands yields a value of another kind: commutative, but not
+			// associative, and the regrouping (c1 op x) op c2 -> (c1 op c2) op x needs both
+			if t := info.TypeOf(be.X); t != nil {
+				if bt, ok := t.Underlying().(*types.Basic); !ok || bt.Info()&types.IsBoolean == 0 {
+					w = fmt.Sprintf("it compares non boolean operands (%s), so its result is not of the operand kind and the operator is not associative", nodeStr(c.Fset, be))
+					pos = be.Pos()
+				}
+			}
 		case token.ADD:
 			if t := info.TypeOf(be); t != nil {
 				if bt, ok := t.Underlying().(*types.Basic); ok && bt.Info()&types.IsString != 0 {
@@ -305,7 +314,7 @@ func ruleR024(pkgFilter func(*packages.Package) bool) func(c *Ctx) {
 					for _, l := range lits {
 						pa, pb := operandParams(info, l)
 						if w, p := asymmetryWitness(c, info, l.Body, pa, pb); w != "" {
-							c.Violation(key, call.Pos(), "operator %q is declared commutative, but its implementation is not symmetric in the operands: %s at %s; the optimizer would reorder the operands of %s", op, w, c.posStr(p), op)
+							c.Violation(key, call.Pos(), "operator %q is declared commutative (= may be regrouped), but its implementation does not allow that: %s at %s; the optimizer would regroup/reorder the operands of %s", op, w, c.posStr(p), op)
 							return true
 						}
 					}
